@@ -200,6 +200,13 @@ impl DatamodelFactory for RFsmExpressionDatamodelFactory {
     }
 }
 
+/// Creates a value that content can't overwrite (used for the fields of "_event").
+fn create_readonly_data_arc(data: Data) -> DataArc {
+    let mut arc = create_data_arc(data);
+    arc.set_readonly(true);
+    arc
+}
+
 fn option_to_data_value(val: &Option<String>) -> Data {
     match val {
         Some(s) => Data::String(s.clone()),
@@ -510,28 +517,30 @@ impl Datamodel for RFsmExpressionDatamodel {
 
         event_props.insert(
             EVENT_VARIABLE_FIELD_NAME.to_string(),
-            create_data_arc(Data::String(event.name.clone())),
+            create_readonly_data_arc(Data::String(event.name.clone())),
         );
         event_props.insert(
             EVENT_VARIABLE_FIELD_TYPE.to_string(),
-            create_data_arc(Data::String(event.etype.name().to_string())),
+            create_readonly_data_arc(Data::String(event.etype.name().to_string())),
         );
         event_props.insert(
             EVENT_VARIABLE_FIELD_SEND_ID.to_string(),
-            create_data_arc(option_to_data_value(&event.sendid)),
+            create_readonly_data_arc(option_to_data_value(&event.sendid)),
         );
         event_props.insert(
             EVENT_VARIABLE_FIELD_ORIGIN.to_string(),
-            create_data_arc(option_to_data_value(&event.origin)),
+            create_readonly_data_arc(option_to_data_value(&event.origin)),
         );
         event_props.insert(
             EVENT_VARIABLE_FIELD_ORIGIN_TYPE.to_string(),
-            create_data_arc(option_to_data_value(&event.origin_type)),
+            create_readonly_data_arc(option_to_data_value(&event.origin_type)),
         );
         event_props.insert(
             EVENT_VARIABLE_FIELD_INVOKE_ID.to_string(),
-            create_data_arc(option_to_data_value(&event.invoke_id)),
+            create_readonly_data_arc(option_to_data_value(&event.invoke_id)),
         );
+        let mut data_value = data_value;
+        data_value.set_readonly(true);
         event_props.insert(EVENT_VARIABLE_FIELD_DATA.to_string(), data_value);
 
         let mut ds = self.global_data.lock().unwrap();
